@@ -68,7 +68,7 @@ func (c *Ctx) newShWorld() (*shWorld, error) {
 	for _, f := range [][2]string{
 		{"/verif/sim/sh/netspoc", "netspoc"}, {"/verif/sim/sh/mail", "mail"},
 		{filepath.Join(vb, "get-netspoc-approve-conf"), "get-netspoc-approve-conf"},
-		{"/repo/bin/newpolicy.sh", "newpolicy.sh"},
+		{repoDir() + "/bin/newpolicy.sh", "newpolicy.sh"},
 	} {
 		if err := cp(f[0], filepath.Join(w.bin, f[1])); err != nil {
 			return nil, err
